@@ -1,5 +1,7 @@
 """Evaluation state (one symbolic path, possibly merged) and the solver front end."""
 import time
+import os as _os
+import sys as _sys
 import z3
 from .values import *
 
@@ -22,11 +24,13 @@ class SolverStats(object):
 
 STATS = SolverStats()
 DEFAULT_TIMEOUT_MS = 10000
+_TACTIC = z3.Then('simplify', 'solve-eqs', 'smt')
+INCREMENTAL = _os.environ.get('PYVC_INCREMENTAL', '0') == '1'
 
 
 def solve(assertions, timeout_ms=None, what=None, want_model=False):
   """returns ('sat'|'unsat'|'unknown', model-or-None)"""
-  s = z3.Solver()
+  s = _TACTIC.solver()
   s.set("timeout", timeout_ms or DEFAULT_TIMEOUT_MS)
   for a in assertions:
     if a is True:
@@ -36,9 +40,24 @@ def solve(assertions, timeout_ms=None, what=None, want_model=False):
     s.add(a)
   t0 = time.time()
   r = s.check()
+  if r == z3.unknown:
+    # the plain SMT core gave up: let z3 pick its own strategy
+    s = z3.Solver()
+    s.set("timeout", timeout_ms or DEFAULT_TIMEOUT_MS)
+    for a in assertions:
+      if a is not True:
+        s.add(a)
+    r = s.check()
   dt = time.time() - t0
   STATS.queries += 1
   STATS.time += dt
+  if _os.environ.get("PYVC_QLOG"):
+    _sys.stderr.write("Q %.3f %s %s n=%d\n" % (dt, r, what, len(assertions)))
+  if r == z3.unknown and _os.environ.get("PYVC_DEBUG") and not _os.path.exists("/tmp/pyvc_unkq.smt2"):
+    open("/tmp/pyvc_unkq.smt2", "w").write(s.to_smt2())
+  if dt > 0.5 and _os.environ.get("PYVC_DEBUG") and not _os.path.exists("/tmp/pyvc_slowq.smt2"):
+    open("/tmp/pyvc_slowq.smt2", "w").write(s.to_smt2())
+    _sys.stderr.write("SLOWQ %.2f %s %s\n" % (dt, r, what))
   if dt > STATS.max_time:
     STATS.max_time = dt
     STATS.max_what = what
@@ -62,6 +81,9 @@ class State(object):
     self.decomp = {}     # term id -> (term, [byte terms little endian])
     self.norange = set() # (term id, n) known not to be provably in [0, 256^n)
     self.unsigned_of = {}  # id of a two's-complement signed term -> (term, unsigned term, bits)
+    self._solver = None
+    self._solver_n = 0
+    self.bitdecomp = {}   # term id -> (term, [bit terms little endian, each 0/1 int or z3 Int in {0,1}])
 
   def copy(self):
     s = State.__new__(State)
@@ -75,7 +97,53 @@ class State(object):
     s.decomp = dict(self.decomp)
     s.norange = set(self.norange)
     s.unsigned_of = dict(self.unsigned_of)
+    s._solver = None
+    s._solver_n = 0
+    s.bitdecomp = dict(self.bitdecomp)
+    s._model = getattr(self, "_model", None)
+    s._model_n = getattr(self, "_model_n", 0)
     return s
+
+  # ---- bit decomposition of small non-negative integers (flag words): keeps mask arithmetic linear
+  def register_bits(self, term, bits):
+    self.bitdecomp[term.get_id()] = (term, list(bits))
+
+  def bits_of(self, v):
+    """little-endian bit list of v if known without a solver query"""
+    if isinstance(v, bool):
+      return None
+    if isinstance(v, int):
+      if v < 0:
+        return None
+      out = []
+      while v:
+        out.append(v & 1)
+        v >>= 1
+      return out
+    if not is_symint(v):
+      return None
+    ent = self.bitdecomp.get(v.get_id())
+    return ent[1] if ent is not None else None
+
+  def compose_bits(self, bits):
+    """term for a bit list (registered), or int when all bits are concrete"""
+    bits = list(bits)
+    while bits and isinstance(bits[-1], int) and bits[-1] == 0:
+      bits.pop()
+    if all(isinstance(x, int) for x in bits):
+      return sum(x << i for i, x in enumerate(bits))
+    tot = z3.IntVal(0)
+    for i, x in enumerate(bits):
+      if isinstance(x, int):
+        if x:
+          tot = tot + (1 << i)
+      else:
+        tot = tot + x * (1 << i)
+    t = z3.simplify(tot)
+    if z3.is_int_value(t):
+      return t.as_long()
+    self.register_bits(t, bits)
+    return t
 
   # ---- base-256 decomposition of bounded non-negative integers (keeps byte arithmetic linear)
   def register_decomp(self, term, bytes_le):
@@ -96,6 +164,15 @@ class State(object):
       if all(self.entails(zint(b) == 0) for b in bs[n:]):
         return bs[:n]
       return None
+    bent = self.bitdecomp.get(tid)
+    if bent is not None and len(bent[1]) <= 8 * n:
+      bits = list(bent[1]) + [0] * (8 * n - len(bent[1]))
+      bs = []
+      for j in range(n):
+        bt = self.compose_bits(bits[8 * j:8 * j + 8])
+        bs.append(bt)
+      self.decomp[tid] = (term, bs)
+      return bs
     if not assume_range:
       if (tid, n) in self.norange:
         return None
@@ -148,7 +225,77 @@ class State(object):
 
   # ---- solver queries under the path condition
   def check(self, extra, what=None, want_model=False, timeout_ms=None):
-    return solve(self.pc + list(extra), what=what, want_model=want_model, timeout_ms=timeout_ms)
+    """incremental: the path condition stays asserted in a per-state solver; extras are pushed/popped"""
+    if not INCREMENTAL:
+      return solve(self.pc + list(extra), what=what, want_model=want_model, timeout_ms=timeout_ms)
+    sv = self._solver
+    if sv is None or self._solver_n > len(self.pc):
+      sv = z3.Solver()
+      self._solver = sv
+      self._solver_n = 0
+    while self._solver_n < len(self.pc):
+      a = self.pc[self._solver_n]
+      self._solver_n += 1
+      if a is True:
+        continue
+      sv.add(a if is_sym(a) else z3.BoolVal(bool(a)))
+    sv.set("timeout", timeout_ms or DEFAULT_TIMEOUT_MS)
+    extra = [e for e in extra if e is not True]
+    if any(e is False for e in extra):
+      return ("unsat", None)
+    t0 = time.time()
+    if extra:
+      sv.push()
+      for e in extra:
+        sv.add(e)
+    r = sv.check()
+    m = None
+    if r == z3.sat and want_model:
+      m = sv.model()
+    if extra:
+      sv.pop()
+    dt = time.time() - t0
+    STATS.queries += 1
+    STATS.time += dt
+    if dt > 1.0 and _os.environ.get("PYVC_DEBUG"):
+      _sys.stderr.write("SLOW %.1fs %s %s extra=%s\n" % (dt, r, what, [str(e)[:200] for e in extra][:2]))
+      if dt > 5 and not _os.path.exists("/tmp/pyvc_slow.txt"):
+        with open("/tmp/pyvc_slow.txt", "w") as f_:
+          for a_ in self.pc:
+            f_.write(str(a_)[:1500] + "\n----\n")
+          f_.write("EXTRA " + str(extra)[:3000])
+    if dt > STATS.max_time:
+      STATS.max_time = dt
+      STATS.max_what = what
+    if r == z3.sat:
+      return ("sat", m)
+    if r == z3.unsat:
+      return ("unsat", None)
+    STATS.unknown += 1
+    return ("unknown", None)
+
+  def _model_ok(self):
+    """is the cached model still a model of the (possibly grown) path condition?"""
+    m = getattr(self, "_model", None)
+    if m is None:
+      return None
+    n = self._model_n
+    if n > len(self.pc):
+      self._model = None
+      return None
+    while n < len(self.pc):
+      a = self.pc[n]
+      try:
+        v = m.eval(a, model_completion=True)
+      except Exception:
+        self._model = None
+        return None
+      if not z3.is_true(v):
+        self._model = None
+        return None
+      n += 1
+    self._model_n = n
+    return m
 
   def feasible(self, cond, what=None):
     """can cond hold under pc?  unknown counts as feasible"""
@@ -157,7 +304,17 @@ class State(object):
       return True
     if cond is False:
       return False
-    r, _ = self.check([cond], what=what)
+    m = self._model_ok()
+    if m is not None:
+      try:
+        if z3.is_true(m.eval(cond, model_completion=True)):
+          return True
+      except Exception:
+        pass
+    r, m2 = self.check([cond], what=what, want_model=True)
+    if r == "sat" and m2 is not None:
+      self._model = m2
+      self._model_n = len(self.pc)
     return r != "unsat"
 
   def entails(self, cond, what=None):
